@@ -5,11 +5,11 @@
 From Coq Require Import List Arith ZArith.
 From VBase Require Import FieldOps.
 From VBase Require Import MachInt.
-From VModel Require Import Composition CompositionLagrange CompositionMixed ExtField.
+From VModel Require Import Composition CompositionLagrange CompositionMixed CompositionMixedWhole ExtField.
 From VModel Require Enforce EnforceLagrange.
 From VModel Require FFT Stark.
-From VProofs Require FFTSpec FFTEval FFTOffset FFTSegments StarkPoly.
-From VProofs Require Import ZpLaws CompositionBase CompositionIndex CompositionVerifier CompositionTable CompositionFFT CompositionValid CompositionLagrange CompositionLagrangeTable CompositionLagrangePoly CompositionMixed CompositionMixedInst ExtModel ExtConcrete CompositionExamples.
+From VProofs Require FFTSpec FFTEval FFTOffset FFTSegments StarkPoly StarkLagrangeRows.
+From VProofs Require Import ZpLaws CompositionBase CompositionIndex CompositionVerifier CompositionTable CompositionFFT CompositionValid CompositionLagrange CompositionLagrangeTable CompositionLagrangePoly CompositionMixed CompositionMixedWhole CompositionMixedInst CompositionLagrangeHonest ExtModel ExtConcrete CompositionExamples.
 Import ListNotations.
 Local Open Scope nat_scope.
 
@@ -724,6 +724,210 @@ Theorem C17_ext_f64_embeddings :
 Proof. exact (conj quad_f64_emb (conj cube_f64_emb (conj f64_quad_laws f64_cube_laws))). Qed.
 Print Assumptions C17_ext_f64_embeddings.
 
+(* ---- round 8 (A): E != B for the WHOLE single-segment prover path.  coq/Model/CompositionMixedWhole.v `evaluate_mixed`:
+        the periodic table, the domain points, the divisor inverses, the assertion polynomials / large-polynomial values, the
+        trace LDE frames and the transition evaluations are BASE-field computations (the single-field functions over OB);
+        coefficients and the table are extension-field values; they meet in mul_base.
+        THEOREM: evaluate_mixed = the single-field evaluate over OE on the embedded inputs, for every Emb and every AIR whose
+        transition evaluator commutes with the embedding. *)
+Theorem C17_evaluate_mixed_embeds :
+  forall (B E : Type) (OB : FOps B) (OE : FOps E),
+         FLaws OB ->
+         FLaws OE ->
+         forall (emb : B -> E) (mul_base : E -> B -> E),
+         Emb OB OE emb mul_base ->
+         forall (n ceb ldeb : nat) (offset : B) (rou : nat -> B) (num_main : nat)
+           (tmainB : list B -> list B -> list B -> list B) (tmainE : list E -> list E -> list E -> list E)
+           (tauxE : list E -> list E -> list E -> list E -> list E -> list E -> list E),
+         (forall cur nxt pv : list B, tmainE (map emb cur) (map emb nxt) (map emb pv) = map emb (tmainB cur nxt pv)) ->
+         forall (ppolys : list (list B)) (exemptions : nat) (tcoef : list E) (groups : list BGm) 
+           (rands : list E) (lde_main : list (list B)) (lde_aux : list (list E)),
+         evaluate_mixed OB OE mul_base n ceb ldeb offset rou num_main tmainB ppolys exemptions tcoef groups lde_main =
+         evaluate OE n ceb ldeb (emb offset) (fun m : nat => emb (rou m)) num_main tmainE tauxE 
+           (map (map emb) ppolys) exemptions tcoef (map (embG emb) groups) [] rands false (map (map emb) lde_main)
+           lde_aux (fun (_ : nat) (v : E) => v).
+Proof. exact @evaluate_mixed_embeds. Qed.
+Print Assumptions C17_evaluate_mixed_embeds.
+
+(* table_row_spec for E != B: ALL hypotheses are about the base-field data (roots of unity, periodic columns, boundary
+   constraints, trace LDE rows = trace polynomials on the LDE coset); conclusion: every value of the mixed evaluate() is
+   comp_def over E with all base-field data embedded, at emb(x_i) *)
+Theorem C17_table_row_spec_single_segment_ext :
+  forall (B E : Type) (OB : FOps B) (OE : FOps E),
+         FLaws OB ->
+         FLaws OE ->
+         forall (emb : B -> E) (mul_base : E -> B -> E),
+         Emb OB OE emb mul_base ->
+         forall (n ceb ldeb : nat) (offset : B) (rou : nat -> B) (num_main : nat)
+           (tmainB : list B -> list B -> list B -> list B) (tmainE : list E -> list E -> list E -> list E)
+           (tauxE : list E -> list E -> list E -> list E -> list E -> list E -> list E),
+         (forall cur nxt pv : list B, tmainE (map emb cur) (map emb nxt) (map emb pv) = map emb (tmainB cur nxt pv)) ->
+         forall (ppolys : list (list B)) (exemptions : nat) (tcoef : list E) (groups : list BGm) 
+           (rands : list E) (lde_main : list (list B)),
+         list (list E) ->
+         forall (r' : nat) (wlde ginv : B),
+         n <> 0 ->
+         ceb <> 0 ->
+         r' <> 0 ->
+         ldeb = ceb * r' ->
+         cpow OB wlde (lde_size n ldeb) = fone OB ->
+         cpow OB wlde r' = wce n ceb rou ->
+         cpow OB wlde ldeb = gtrace n rou ->
+         fmul OB ginv (gtrace n rou) = fone OB ->
+         (forall cur nxt pv : list E, length (tmainE cur nxt pv) = num_main) ->
+         exemptions <= n ->
+         (forall p : list B, In p ppolys -> length p <> 0) ->
+         (forall p : list B, In p ppolys -> length p * (n / length p) = n) ->
+         (forall p : list B,
+          In p ppolys -> exists q : nat, fold_left Nat.max (map (length (A:=B)) ppolys) 0 = length p * q) ->
+         (forall p : list B, In p ppolys -> rou (length p * ceb) = cpow OB (wce n ceb rou) (n / length p)) ->
+         forall (tpolys : list (list B)) (apolys : list (list E)),
+         (forall g : BGm,
+          In g groups ->
+          (dv_ex (gm_div g) = [] /\
+           dv_a (gm_div g) <> 0 /\ dv_a (gm_div g) * (ce_size n ceb / dv_a (gm_div g)) = ce_size n ceb) /\
+          (forall c : BCm,
+           In c (gm_cs g) ->
+           m_col c < length tpolys /\
+           length (m_poly c) <> 0 /\
+           m_xoff c = cpow OB ginv (m_first c) /\
+           m_first c < n /\ length (m_poly c) * (ce_size n ceb / length (m_poly c)) = ce_size n ceb)) ->
+         lde_rows_of OB n ldeb offset wlde lde_main tpolys ->
+         evaluate_mixed OB OE mul_base n ceb ldeb offset rou num_main tmainB ppolys exemptions tcoef groups lde_main =
+         Some
+           (map
+              (fun i : nat =>
+               comp_def OE n (fun m : nat => emb (rou m)) tmainE tauxE (map (map emb) ppolys) exemptions tcoef
+                 (map (embG emb) groups) [] rands false (map (map emb) tpolys) apolys
+                 (emb (ce_x OB n ceb offset rou i))) (seq 0 (ce_size n ceb))).
+Proof. exact @table_row_spec_single_segment_ext. Qed.
+Print Assumptions C17_table_row_spec_single_segment_ext.
+
+(* the capstone for E != B (single segment): premises = those of the table theorem (base field) + the interpolation round
+   trip over E (C09 at F := E) + a coefficient list for comp_def over E (C01 at F := E); conclusion: the mixed evaluate()
+   and CompositionPoly::new over E succeed and the committed columns recombine to the definition with embedded data.
+   REMAINING for E != B: the multi-segment path (aux columns already live in E; a mixed model of evaluate_fragment_full /
+   evaluate_all / the group merge is not built), the verifier's evaluate_constraints as a whole (its mixed primitives are in
+   C17_mixed_ops_are_embedded), the Lagrange terms, and the two E-level premises instantiated from C09 / C01. *)
+Theorem C17_composition_is_definition_ext :
+  forall (B E : Type) (OB : FOps B) (OE : FOps E),
+         FLaws OB ->
+         FLaws OE ->
+         forall (emb : B -> E) (mul_base : E -> B -> E),
+         Emb OB OE emb mul_base ->
+         forall (n ceb ldeb : nat) (offset : B) (rou : nat -> B) (num_main : nat)
+           (tmainB : list B -> list B -> list B -> list B) (tmainE : list E -> list E -> list E -> list E)
+           (tauxE : list E -> list E -> list E -> list E -> list E -> list E -> list E),
+         (forall cur nxt pv : list B, tmainE (map emb cur) (map emb nxt) (map emb pv) = map emb (tmainB cur nxt pv)) ->
+         forall (ppolys : list (list B)) (exemptions : nat) (tcoef : list E) (groups : list BGm) 
+           (rands : list E) (lde_main : list (list B)),
+         list (list E) ->
+         forall (r' : nat) (wlde ginv : B),
+         n <> 0 ->
+         ceb <> 0 ->
+         r' <> 0 ->
+         ldeb = ceb * r' ->
+         cpow OB wlde (lde_size n ldeb) = fone OB ->
+         cpow OB wlde r' = wce n ceb rou ->
+         cpow OB wlde ldeb = gtrace n rou ->
+         fmul OB ginv (gtrace n rou) = fone OB ->
+         (forall cur nxt pv : list E, length (tmainE cur nxt pv) = num_main) ->
+         exemptions <= n ->
+         (forall p : list B, In p ppolys -> length p <> 0) ->
+         (forall p : list B, In p ppolys -> length p * (n / length p) = n) ->
+         (forall p : list B,
+          In p ppolys -> exists q : nat, fold_left Nat.max (map (length (A:=B)) ppolys) 0 = length p * q) ->
+         (forall p : list B, In p ppolys -> rou (length p * ceb) = cpow OB (wce n ceb rou) (n / length p)) ->
+         forall (tpolys : list (list B)) (apolys : list (list E)),
+         (forall g : BGm,
+          In g groups ->
+          (dv_ex (gm_div g) = [] /\
+           dv_a (gm_div g) <> 0 /\ dv_a (gm_div g) * (ce_size n ceb / dv_a (gm_div g)) = ce_size n ceb) /\
+          (forall c : BCm,
+           In c (gm_cs g) ->
+           m_col c < length tpolys /\
+           length (m_poly c) <> 0 /\
+           m_xoff c = cpow OB ginv (m_first c) /\
+           m_first c < n /\ length (m_poly c) * (ce_size n ceb / length (m_poly c)) = ce_size n ceb)) ->
+         lde_rows_of OB n ldeb offset wlde lde_main tpolys ->
+         forall interp : list E -> list E,
+         (forall p : list E,
+          length p = ce_size n ceb ->
+          interp
+            (map (fun i : nat => peval OE p (ce_x OE n ceb (emb offset) (fun m : nat => emb (rou m)) i))
+               (seq 0 (ce_size n ceb))) = p) ->
+         forall (good : E -> Prop) (q : list E) (num_cols : nat),
+         (forall z : E,
+          good z ->
+          peval OE q z =
+          comp_def OE n (fun m : nat => emb (rou m)) tmainE tauxE (map (map emb) ppolys) exemptions tcoef
+            (map (embG emb) groups) [] rands false (map (map emb) tpolys) apolys z) ->
+         (forall i : nat, i < ce_size n ceb -> good (ce_x OE n ceb (emb offset) (fun m : nat => emb (rou m)) i)) ->
+         length q <= ce_size n ceb ->
+         length q <= num_cols * n ->
+         n < ce_size n ceb ->
+         exists (evals : list E) (cols : list (list E)),
+           evaluate_mixed OB OE mul_base n ceb ldeb offset rou num_main tmainB ppolys exemptions tcoef groups lde_main =
+           Some evals /\
+           composition_poly_new n interp evals num_cols = Some cols /\
+           (forall z : E, recombine OE n (cp_evaluate_at OE cols z) z = peval OE q z) /\
+           (forall z : E,
+            good z ->
+            recombine OE n (cp_evaluate_at OE cols z) z =
+            comp_def OE n (fun m : nat => emb (rou m)) tmainE tauxE (map (map emb) ppolys) exemptions tcoef
+              (map (embG emb) groups) [] rands false (map (map emb) tpolys) apolys z).
+Proof. exact @composition_is_definition_ext. Qed.
+Print Assumptions C17_composition_is_definition_ext.
+
+(* instances: quadratic and cubic extension of f64 (C08) *)
+Theorem C17_ext_f64_whole_pipeline :
+  (forall n ceb ldeb offset rou num_main tmainB tmainE tauxE,
+     (forall cur nxt pv, tmainE (map (q_from_base F64_ops) cur) (map (q_from_base F64_ops) nxt) (map (q_from_base F64_ops) pv)
+                         = map (q_from_base F64_ops) (tmainB cur nxt pv)) ->
+     forall ppolys exemptions tcoef groups rands lde_main lde_aux,
+     evaluate_mixed F64_ops (q_ops F64_ops (f64_x2 F64_ops)) (q_mul_base (f64_x2 F64_ops)) n ceb ldeb offset rou num_main tmainB
+                    ppolys exemptions tcoef groups lde_main
+     = evaluate (q_ops F64_ops (f64_x2 F64_ops)) n ceb ldeb (q_from_base F64_ops offset) (fun m => q_from_base F64_ops (rou m))
+                num_main tmainE tauxE (map (map (q_from_base F64_ops)) ppolys) exemptions tcoef
+                (map (embG (q_from_base F64_ops)) groups) [] rands false (map (map (q_from_base F64_ops)) lde_main) lde_aux
+                (fun _ v => v))
+  /\ (forall n ceb ldeb offset rou num_main tmainB tmainE tauxE,
+     (forall cur nxt pv, tmainE (map (c_from_base F64_ops) cur) (map (c_from_base F64_ops) nxt) (map (c_from_base F64_ops) pv)
+                         = map (c_from_base F64_ops) (tmainB cur nxt pv)) ->
+     forall ppolys exemptions tcoef groups rands lde_main lde_aux,
+     evaluate_mixed F64_ops (c_ops F64_ops (f64_x3 F64_ops)) (c_mul_base (f64_x3 F64_ops)) n ceb ldeb offset rou num_main tmainB
+                    ppolys exemptions tcoef groups lde_main
+     = evaluate (c_ops F64_ops (f64_x3 F64_ops)) n ceb ldeb (c_from_base F64_ops offset) (fun m => c_from_base F64_ops (rou m))
+                num_main tmainE tauxE (map (map (c_from_base F64_ops)) ppolys) exemptions tcoef
+                (map (embG (c_from_base F64_ops)) groups) [] rands false (map (map (c_from_base F64_ops)) lde_main) lde_aux
+                (fun _ v => v)).
+Proof.
+  split; intros.
+  - now apply quad_f64_evaluate_mixed_embeds.
+  - now apply cube_f64_evaluate_mixed_embeds.
+Qed.
+Print Assumptions C17_ext_f64_whole_pipeline.
+
+(* ---- round 8 (B): the Lagrange polynomiality WITHOUT vanishing hypotheses, for the honest kernel column (C01's row-to-point
+        translation, Proofs/StarkLagrangeRows.v = C01_lagrange_honest_numer_vanishes / C01_lagrange_honest_first_cell): premise
+        Ql of C17_composition_is_definition_lagrange_partial.  The capstone itself keeps its compositional form (`_partial`):
+        the four premises are still separate theorems. *)
+Theorem C17_lag_def_is_poly_honest :
+  forall (F : Type) (O0 : FOps F),
+         FLaws O0 ->
+         forall (n v : nat) (rou : nat -> F),
+         n = 2 ^ v ->
+         StarkPoly.primitive_root O0 (gtrace n rou) n ->
+         forall Lp rr : list F,
+         length rr = v ->
+         (forall i : nat,
+          i < n -> peval O0 Lp (cpow O0 (gtrace n rou) i) = nth i (StarkLagrangeRows.kernel_col O0 v rr) (fzero O0)) ->
+         forall (t : EnforceLagrange.LagTC) (lb : F),
+         exists Q : list F,
+           length Q <= length Lp /\ (forall x : F, lag_good O0 v x -> lag_def O0 n rou v Lp t rr lb x = peval O0 Q x).
+Proof. exact @lag_def_is_poly_honest. Qed.
+Print Assumptions C17_lag_def_is_poly_honest.
+
 (* ---- non-vacuity: each theorem above instantiated in the 64-bit field with ALL hypotheses discharged
         (Proofs/CompositionExamples.v).  Instance A: trace length 2, ce blowup 2, a periodic column, an auxiliary column,
         a single-value group at step 0, a two-value sequence group with first step 1, an auxiliary group sharing the first
@@ -804,3 +1008,10 @@ Example C17_lag_def_is_poly_nonvacuous :
   exists Q, length Q <= length LpK /\ forall x, lag_good F64_ops 1 x ->
     lag_def F64_ops 2 rouA 1 LpK tLagA [r0L] (e64 4) x = peval F64_ops Q x.
 Proof. exact lag_def_is_poly_instance. Qed.
+
+Example C17_table_row_spec_single_segment_ext_nonvacuous :
+  evaluate_mixed F64_ops OQ (q_mul_base (f64_x2 F64_ops)) 2 2 2 (e64 7) rouA 1 tmainA ppolysA 1 [(e64 11, e64 3)] [gmA; gmA2] (ldeA tpolysA)
+  = Some (map (fun i => comp_def OQ 2 (fun m => embQ (rouA m)) tmainQ (fun _ _ _ _ _ _ => []) (map (map embQ) ppolysA) 1 [(e64 11, e64 3)]
+                                 (map (embG embQ) [gmA; gmA2]) [] [] false (map (map embQ) tpolysA) []
+                                 (embQ (ce_x F64_ops 2 2 (e64 7) rouA i))) (seq 0 (ce_size 2 2))).
+Proof. exact table_row_spec_single_segment_ext_instance. Qed.
